@@ -32,6 +32,19 @@ GO_PANIC_MARKS = (b"invalid memory address or nil pointer dereference", b"runtim
                   b"interface conversion:", b"runtime error: integer divide by zero")
 
 
+def _emitted_bytes(o):
+    n = 0
+    stack = [o.get("emits"), o.get("outcome")]
+    while stack:
+        x = stack.pop()
+        if isinstance(x, list):
+            if len(x) == 2 and x[0] == "s" and isinstance(x[1], list):
+                n += len(x[1])
+            else:
+                stack.extend(x)
+    return n
+
+
 def go_panic_text(o):
     """the first string token of a run (emitted values, results, error value) that carries the text of a Go run-time panic"""
     def walk(x):
@@ -69,6 +82,9 @@ def validate(progs, outs, tag, stats, max_steps=20000, batch=150, module="LuaSem
         oc = o["outcome"][0]
         if oc in ("crash", "hang", "gopanic", "loaderr"):
             verdicts[p["id"]] = {"id": p["id"], "v": "bad", "at": -1, "exp": "a Lua outcome", "got": o["outcome"], "why": oc}
+        elif _emitted_bytes(o) > 200000:
+            # a program that blows a string up exponentially: the run is not sent to TLC (outside the model)
+            verdicts[p["id"]] = {"id": p["id"], "v": "unmod", "why": "string too long", "steps": 0}
         elif go_panic_text(o) and not any(m in p["src"].encode("latin-1", "replace") for m in GO_PANIC_MARKS):
             # a Go run-time panic (nil dereference, index out of range, failed type assertion) that surfaced as the
             # text of a Lua error: no specification admits it, whether or not the position of that error is judged
